@@ -2,6 +2,7 @@ SPECIFICATION Spec
 CONSTANTS
   MaxRows = 3
   Depth = 2
+  Ordered = FALSE
   TypeNames = {"Bool", "Tri", "Opt", "Empty", "One", "Unit", "Pair", "Rec"}
 INVARIANTS Agree WitnessSound WitnessComplete ArmAlwaysFound RowOrderIrrelevant Report
 CHECK_DEADLOCK FALSE
